@@ -7,13 +7,27 @@ CFG = {'lean_modules': ['ObiVerif.Props.C14'],
          'alias chains / shadowed / overwritten aliases, root taxid != 1, taxid 0, two roots, missing parent, odd rank strings, dump loading); every rooted '
          'labelled tree on n <= 5 (quick) / n <= 6 (thorough) nodes with all pairs LCA / sub-clade, all paths, all (node, rank) queries, every non-empty subset '
          '(n <= 4) as a merged_taxid map, all (clade, sequence taxid) restrict/ignore queries; the n <= 4 shapes relabelled with arbitrary taxids, aliases and '
-         'unknown taxids; 700 (quick) / 3000 (thorough, per seed) random trees of 1..340 nodes in seven shapes (uniform, chain, star, deep, heap, caterpillar, '
-         'local) with the 44 NCBI rank labels or odd labels, 12..42 random queries each; 6 / 24 trees of 1000..7000 nodes (random, chain, star, deep) with 60 '
+         'unknown taxids; 2500 (quick) / 5000 (thorough, per seed) random trees of 1..340 nodes in seven shapes (uniform, chain, star, deep, heap, caterpillar, '
+         'local) with the 44 NCBI rank labels or odd labels, 12..42 random queries each; 12 / 24 trees of 1000..7000 nodes (random, chain, star, deep) with 60 '
          'queries; one case in six is loaded through a synthetic NCBI dump directory; non-trivial = distinct well-formed case line',
  'technique': 'Lean 4 theorems on a functional model of the obitax queries for every well-formed taxonomy (any size, any taxids, any ranks, any alias table) + '
               'differential correspondence of the model with the real obitax / obigrep / obiannotate code on synthetic taxonomies + naive ancestor-set oracle',
- 'level_text': 'PLACEHOLDER',
- 'level_note': 'PLACEHOLDER',
+ 'level_text': 'For every well-formed taxonomy (WF: one self-parent root, parents are nodes, a depth function decreasing along parent links — shown equivalent to '
+               '"every node reaches the root" by wellFormed_of_reaches) of any size, taxids, ranks and alias table, proved in full on the Lean model: path_spec (the path '
+               'runs node -> root along parent links, lists exactly the ancestors-or-self, each once), lca_total / lca_is_common_ancestor / lca_deepest / lca_unique / '
+               'lca_comm / lca_idem / lca_assoc, fuel_nodes_suffices (the fuel nodes+1 of the model executable never runs out on a well-formed taxonomy), isSubClade_iff_anc, taxonAtRank_first / _some / _none, hasRankDefined_iff, resolve_node / alias_resolves / '
+               'resolve_lands_on_node, restrictTo_spec / ignoreTaxon_spec / requireRanks_spec / taxFilter_spec / taxFilter_fatal / inCladeSlot_spec / '
+               'setTaxonAtRank_spec (fatal exactly for an unknown clade or a rank no node carries; otherwise select exactly what the ancestor relation implies), '
+               'weightedLca_threshold_one (Taxonomy.LCA at threshold 1.0 on a non-empty map of known taxids with positive counts = left fold of TaxNode.LCA over the '
+               'taxa present = the deepest common ancestor of all of them, independent of weights and order), weightedLca_unknown, weightedLca_empty. The model is '
+               'tied to pkg/obitax, obigrep/options.go and the obiannotate workers by running both on the same synthetic taxonomies (API-built and loaded from dump '
+               'directories), all rooted labelled trees up to 6 nodes exhaustively, random trees to 7000 nodes, with an independent ancestor-set oracle on the real code.',
+ 'level_note': 'Trusted: Lean kernel; the transcription Model/Tax.lean (pointer comparisons of TaxNode read as taxid comparisons; the float test rmax >= 1.0 read as '
+               'the integer test total > 0 and weighMax = total). Tied by correspondence only (no theorem): ncbitaxdump.LoadNCBITaxDump builds the same taxonomy as the API calls; taxonomic_path / '
+               'lca_name / rank_name annotations (names), Taxon(string) parsing of "TX:n", AddLCAWorker = Taxonomy.LCA. Not covered: thresholds below 1.0 '
+               '(outside the statement; map-order dependent on ties), zero/duplicate-key weight overwriting in TaxonomicDistribution beyond equal weights, name-based '
+               'filters (IFilterOnName, AddNewName alternate names), the ITaxonSet iterators, taxonomies that are not well formed (parent cycles hang, two roots make '
+               'TaxNode.LCA index out of range — modelled as outcomes hang / panic, the latter exercised).',
  'trusted_base': LEAN_TB + ['Go map semantics (one TaxNode object per taxid after ReindexParent, so pointer comparisons are taxid comparisons)',
                             'IEEE-754 double division of integers below 2^53 (w/total = 1.0 iff w = total), used to replace the float test rmax >= 1.0 by an integer test',
                             'naive ancestor-set oracle in the harness'],
